@@ -324,7 +324,12 @@ class Renderer:
             if self.variant.get("unrel") and idx == 1:
                 body += ["def unrelated_%d():" % self.variant["unrel"], "    return %d" % self.variant["unrel"], "", "# a comment between definitions", ""]
             body += self.func(f, imports)
-        return HEADER + "\n".join(sorted(imports)) + "\n" + "\n".join(body) + "\n"
+        text = HEADER + "\n".join(sorted(imports)) + "\n" + "\n".join(body) + "\n"
+        if self.spec.get("dds_names"):
+            # the program says 'from dds import keep, load, data_function' and uses the bare names
+            text = text.replace("import dds\n", "import dds\nfrom dds import keep, load, data_function\n", 1)
+            text = text.replace("@dds.data_function(", "@data_function(").replace("dds.keep(", "keep(").replace("dds.load(", "load(")
+        return text
 
     def ext_module(self):
         imports = set()
